@@ -43,6 +43,7 @@ type Scenario struct {
 	Forced  bool               // offer the cancellation of the forced-shutdown context as an environment event
 	Bound   *int               // deviation bound override
 	Static  func() []Violation // checks that do not need an execution (run once per scenario)
+	PostRun func() []FoundViolation // evaluated once after the exploration (e.g. on artefacts collected from all executions)
 }
 
 type Violation struct {
